@@ -56,7 +56,7 @@ def check(ctx):
               "the stored item count is written by %s; only count-up and count-down may write it" % [short(x) for x in who_cw], where=where(cw))
     who_cu = sorted({f.id for f, b in callers.get(cu.id, [])})
     who_cd = sorted({f.id for f, b in callers.get(cd.id, [])})
-    ctx.check(who_cu == [put.id], "count-writers", "CNT_UP", "count-up is called from %s, expected only put_kt" % [short(x) for x in who_cu])
+    _who_cu = who_cu
     ctx.check(who_cd == [dele.id], "count-writers", "CNT_DOWN", "count-down is called from %s, expected only del_kt" % [short(x) for x in who_cd])
     # count-up adds one to the stored count, count-down subtracts one
     for fn, op, nm in ((cu, ("Add", "AddWithOverflow"), "CNT_UP"), (cd, ("Sub", "SubWithOverflow"), "CNT_DOWN")):
@@ -78,41 +78,76 @@ def check(ctx):
     _, del_some, del_none = sp_del[0]
     r_ins, r_ovw = region_dominated(put, put_none), region_dominated(put, put_some)
     r_del = region_dominated(dele, del_some)
-    for b, t in calls_to(prog, put, target_fn=cu):
-        ctx.check(b in r_ins and not in_cycle(put, b), "count-arm", "CNT_UP", "count-up happens outside the insert arm of put (or in a loop)", where=where(put, b))
+
     for b, t in calls_to(prog, dele, target_fn=cd):
         ctx.check(b in r_del and not in_cycle(dele, b), "count-arm", "CNT_DOWN", "count-down happens outside the found arm of delete (or in a loop)", where=where(dele, b))
 
     # ---- (2)/(3) insert ---------------------------------------------------------------------
-    ka = calls_to(prog, put, target_fn=R.need("KEY_ALLOC"))
-    if ctx.check(len(ka) == 1 and ka[0][0] in r_ins, "insert-links", "one-key-alloc", "expected exactly one key allocation on the insert arm of put", where=where(put)):
+    # the insert arm may be written inline in put_kt or extracted into one helper called from that arm
+    ins_fn, ins_region, pm = put, r_ins, {"key": 2, "value": 3, "hash": None}
+    if not [1 for b, t in calls_to(prog, put, target_fn=R.need("KEY_ALLOC")) if b in r_ins]:
+        eff_i = role_effects(prog, R, ["KEY_ALLOC"])
+        helpers = []
+        for b in sorted(r_ins):
+            t = put.blocks[b]["term"]
+            if t and t["t"] == "call":
+                for x in prog.targets(t, put)[0]:
+                    if x.impl_self_adt == INNER and "KEY_ALLOC" in eff_i.must.get(x.id, set()):
+                        helpers.append((x, b, t))
+        if len(helpers) == 1:
+            h, hb, ht = helpers[0]
+            from .c01 import hash_from_key
+            pm = {"key": None, "value": None, "hash": None}
+            for i, a in enumerate(ht["args"]):
+                o = origins(prog, put, a, at=hb)
+                if o and all(x.kind == "param" and x.data == 2 and not x.proj for x in o):
+                    pm["key"] = i + 1
+                elif o and all(x.kind == "param" and x.data == 3 and not x.proj for x in o):
+                    pm["value"] = i + 1
+                elif hash_from_key(prog, put, a, 2):
+                    pm["hash"] = i + 1
+            only_here = {f.id for f, bb in prog.callers().get(h.id, [])} == {put.id}
+            if ctx.check(bool(pm["key"] and pm["value"] and pm["hash"] and only_here and not in_cycle(put, hb)), "insert-links", "helper-arguments",
+                         "the insert helper %s is not called once from the insert arm with (hash of the key, key, value)" % h.name, where=where(put, hb)):
+                ins_fn, ins_region = h, set(range(len(h.blocks)))
+                ctx.touch(h, len(h.blocks))
+                ctx.note("insert arm extracted into helper %s" % h.id)
+    ka = [(b, t) for b, t in calls_to(prog, ins_fn, target_fn=R.need("KEY_ALLOC")) if b in ins_region]
+    is_key = lambda os_: bool(os_) and all(o.kind == "param" and o.data == pm["key"] for o in os_)
+    is_val = lambda os_: bool(os_) and all(o.kind == "param" and o.data == pm["value"] for o in os_)
+    if ctx.check(len(ka) == 1, "insert-links", "one-key-alloc", "expected exactly one key allocation on the insert arm of put", where=where(ins_fn)):
         b, t = ka[0]
-        k = origins(prog, put, t["args"][1], at=b)
-        ctx.check(bool(k) and all(o.kind == "param" and o.data == 2 for o in k), "insert-links", "key-is-callers-key",
-                  "the key stored by put is not the key parameter (%s)" % k, where=where(put, b))
-        vo = origins(prog, put, t["args"][2], at=b)
+        ctx.check(is_key(origins(prog, ins_fn, t["args"][1], at=b)), "insert-links", "key-is-callers-key",
+                  "the key stored by put is not the key parameter", where=where(ins_fn, b))
+        vo = origins(prog, ins_fn, t["args"][2], at=b)
         n_origin += 1
-        ctx.check(role_origin(prog, R, put, vo, "VAL_ALLOC", ".offset"), "insert-links", "key->own-value",
+        ctx.check(role_origin(prog, R, ins_fn, vo, "VAL_ALLOC", ".offset"), "insert-links", "key->own-value",
                   "the value offset stored in a new key record is not the offset of the value record allocated by the same put (%s)" % vo,
-                  where=where(put, b), expected="VAL_ALLOC(..)?.offset")
-        nx = origins(prog, put, t["args"][3], at=b)
+                  where=where(ins_fn, b), expected="VAL_ALLOC(..)?.offset")
+        nx = origins(prog, ins_fn, t["args"][3], at=b)
         n_origin += 1
-        ctx.check(role_origin(prog, R, put, nx, "HEAD_READ"), "insert-links", "next-is-old-head",
-                  "a new key record's next link is not the current head of its bucket (%s): the rest of the chain is lost" % nx, where=where(put, b))
-        va = calls_to(prog, put, target_fn=R.need("VAL_ALLOC"))
-        for vb, vt in va:
-            v = origins(prog, put, vt["args"][1], at=vb)
-            ctx.check(bool(v) and all(o.kind == "param" and o.data == 3 for o in v), "insert-links", "value-is-callers-value",
-                      "the value stored by put is not the value parameter (%s)" % v, where=where(put, vb))
-    hw = [(b, t) for b, t in calls_to(prog, put, target_fn=R.need("HEAD_WRITE")) if b in r_ins]
-    if ctx.check(len(hw) == 1, "insert-links", "one-head-write", "expected exactly one bucket-head write on the insert arm", where=where(put)):
+        ctx.check(role_origin(prog, R, ins_fn, nx, "HEAD_READ"), "insert-links", "next-is-old-head",
+                  "a new key record's next link is not the current head of its bucket (%s): the rest of the chain is lost" % nx, where=where(ins_fn, b))
+        for vb, vt in calls_to(prog, ins_fn, target_fn=R.need("VAL_ALLOC")):
+            ctx.check(is_val(origins(prog, ins_fn, vt["args"][1], at=vb)), "insert-links", "value-is-callers-value",
+                      "the value stored by put is not the value parameter", where=where(ins_fn, vb))
+    hw = [(b, t) for b, t in calls_to(prog, ins_fn, target_fn=R.need("HEAD_WRITE")) if b in ins_region]
+    if ctx.check(len(hw) == 1, "insert-links", "one-head-write", "expected exactly one bucket-head write on the insert arm", where=where(ins_fn)):
         b, t = hw[0]
-        o = origins(prog, put, t["args"][2], at=b)
+        o = origins(prog, ins_fn, t["args"][2], at=b)
         n_origin += 1
-        ctx.check(role_origin(prog, R, put, o, "KEY_ALLOC", ".offset"), "insert-links", "head-is-new-record",
-                  "the bucket head written by an insert is not the offset of the key record just allocated (%s)" % o, where=where(put, b))
+        ctx.check(role_origin(prog, R, ins_fn, o, "KEY_ALLOC", ".offset"), "insert-links", "head-is-new-record",
+                  "the bucket head written by an insert is not the offset of the key record just allocated (%s)" % o, where=where(ins_fn, b))
         if ka:
-            ctx.check(put.dominates(ka[0][0], b), "insert-links", "alloc-before-head", "the bucket head is written before the key record exists", where=where(put, b))
+            ctx.check(ins_fn.dominates(ka[0][0], b), "insert-links", "alloc-before-head", "the bucket head is written before the key record exists", where=where(ins_fn, b))
+        if ins_fn is not put:
+            for bb, tt in calls_to(prog, ins_fn, target_fn=R.need("HEAD_READ")) + hw:
+                ho = origins(prog, ins_fn, tt["args"][1], at=bb)
+                ctx.check(bool(ho) and all(x.kind == "param" and x.data == pm["hash"] for x in ho), "insert-links", "helper-uses-its-hash",
+                          "the insert helper addresses a bucket with something other than the hash it was given", where=where(ins_fn, bb))
+    ctx.check(_who_cu == [ins_fn.id], "count-writers", "CNT_UP", "count-up is called from %s, expected only the insert path of put_kt" % [short(x) for x in _who_cu])
+    for b, t in calls_to(prog, ins_fn, target_fn=cu):
+        ctx.check(b in ins_region and not in_cycle(ins_fn, b), "count-arm", "CNT_UP", "count-up happens outside the insert arm of put (or in a loop)", where=where(ins_fn, b))
 
     # ---- (2) overwrite helper -----------------------------------------------------------------
     ovw = ctx.anchor("OVERWRITE", lambda p: R.need("OVERWRITE"))
